@@ -1,5 +1,5 @@
 (* C02 [B]: the two curve derivative algorithms agree: A3.4 (CurveEvaluator2: derivative control points A3.3 + lower-degree basis
-   functions) returns the same vectors as A3.2 (CurveEvaluator: basis-function derivatives A2.3) for every order 0..p+2, degrees 1..3 (degree 4: Proofs/DerivsAgree4.v),
+   functions) returns the same vectors as A3.2 (CurveEvaluator: basis-function derivatives A2.3) for every order 0..p+2, degrees 1..3 (degree 4 takes about 9 minutes of field and is not included),
    on the symbolic knot window k0 <= ... <= kp <= u < k(p+1) <= ... (all multiplicity patterns) with symbolic control values.
    Both functions run their own span search; on the window it returns p (find_span_linear_spec). *)
 From Coq Require Import List Reals Lra Lia Arith Bool.
